@@ -107,6 +107,9 @@ class SymCtx(Ctx):
     def tmp(self, name):
         return "/mem/" + name
 
+    def read_text(self, path):
+        return symlibs.MemFiles.files[path]
+
     def is_true(self, c):
         """decide a condition by forking (harness-level case split)"""
         return bool(c)
@@ -247,6 +250,9 @@ class RealCtx(ConcreteCtx):
             self._tmpdir = tempfile.mkdtemp(prefix="bverif_replay_")
         return os.path.join(self._tmpdir, name)
 
+    def read_text(self, path):
+        return open(path).read()
+
     def cleanup(self):
         if self._tmpdir:
             import shutil
@@ -275,6 +281,9 @@ class ShimCtx(ConcreteCtx):
 
     def tmp(self, name):
         return "/mem/" + name
+
+    def read_text(self, path):
+        return symlibs.MemFiles.files[path]
 
     def cleanup(self):
         symnp.CONCRETE_MATH = False
